@@ -271,6 +271,8 @@ def gen_c11(tier, seed):
                         s.add("type", "pointer", rnd.choice(base))
                         s.add("type", "qualified", rnd.randrange(1, 8), rnd.choice(["$long", "$double", "@t7"]))
                     cur = s.add("type", "qualified", q, cur)
+                if rnd.random() < 0.25:
+                    s.add("type", "qualified", 0, cur)           # the empty set is refused on an already qualified operand too
                 s.add("type", "q_main", cur)
                 s.add("value", "q_quals", cur)
                 s.add("value", "is_qualified", cur)
